@@ -409,6 +409,19 @@ def le (a b : Value) : Res Bool := (lt b a).map (!·)
 def ge (a b : Value) : Res Bool := (lt a b).map (!·)
 def ne (a b : Value) : Res Bool := (eq a b).map (!·)
 
+/-- numeric values: what a posting amount or a running total can be -/
+def isNum : Value → Bool
+  | int _ | amt _ | bal _ => true
+  | _ => false
+
+/-- A report's running total: the left fold of `operator+=` over the values of the
+    postings reported so far, starting from `acc` (VOID for a fresh total). -/
+def sumFrom (acc : Value) : List Value → Res Value
+  | [] => .ok acc
+  | v :: vs => match add acc v with
+    | .ok r => sumFrom r vs
+    | .error e => .error e
+
 end Value
 
 end Ledger
